@@ -18,9 +18,15 @@ impl Prop for C02 {
     const RESETS_PANIC_HOOK: bool = true;
 
     fn lanes(tier: Tier) -> Vec<Lane> {
-        vec![Lane::new("main", tier.pick(48_000, 800_000))
-            .cap(tier.pick(120, 1200))
-            .floor(tier.pick(16_000, 200_000))]
+        vec![
+            Lane::new("main", tier.pick(48_000, 800_000))
+                .cap(tier.pick(120, 1200))
+                .floor(tier.pick(16_000, 200_000)),
+            // as in C03: every length 10 / 50 / 250 times bigger
+            Lane::new("large", tier.pick(1_600, 32_000))
+                .cap(tier.pick(150, 1200))
+                .floor(tier.pick(100, 2_000)),
+        ]
     }
 
     fn rule() -> &'static str {
